@@ -120,7 +120,7 @@ def run(ctx):
     ):
         chk.rule(rid, txt)
     base, cone = _gen_classes(ctx)
-    _find_roles(ctx, base, cone)
+    ctx.attempt(_find_roles, ctx, base, cone)
     chk.analysed["generator_roles"] = {k: (v.qualname if hasattr(v, "qualname") else v) for k, v in ROLE.items()}
     gen_cls = repo.find_class("GeneralInstanceGenerator")
     generate = gen_cls.methods.get("generate")
@@ -166,13 +166,13 @@ def run(ctx):
                 chk.ok("R19.a", generate.qualname, generate.loc(n), "pool = f(num_machines)")
 
     # ---------------------------------------------------------------- R19.h
-    _distinct_machines(ctx, cro, op_cls)
+    ctx.attempt(_distinct_machines, ctx, cro, op_cls)
 
     # ---------------------------------------------------------------- R19.i
-    _config_is_read_only(ctx, base, cone)
+    ctx.attempt(_config_is_read_only, ctx, base, cone)
 
     # ---------------------------------------------------------------- R19.b
-    _jobs_vs_machines(ctx, generate)
+    ctx.attempt(_jobs_vs_machines, ctx, generate)
 
     # ---------------------------------------------------------------- R19.c
     n_draw = 0
@@ -287,10 +287,10 @@ def run(ctx):
             chk.violation("R19.d", generate, named[0] if named else None, f"generate does not name the instance with {nn.name}()")
 
     # ---------------------------------------------------------------- R19.e
-    _iterator(ctx, base)
+    ctx.attempt(_iterator, ctx, base)
 
     # ---------------------------------------------------------------- R19.f/g
-    _pool_and_shape(ctx, gen_cls, generate, cro)
+    ctx.attempt(_pool_and_shape, ctx, gen_cls, generate, cro)
 
 
 ROLE = {"limit": "_iteration_limit", "iter": "_current_iteration", "counter": "_counter", "namer": None, "step": 1}
